@@ -126,10 +126,10 @@ def aggregate(results):
             if c.status == "failed":
                 o["status"] = "failed"
                 if len(o["models"]) < 5:
-                    o["models"].append({"model": c.model, "detail": c.detail, "path": c.path})
+                    o["models"].append({"model": c.model, "detail": c.detail, "path": c.path, "overapprox": getattr(c, "overapprox", False)})
             elif c.status == "unknown" and o["status"] != "failed":
                 o["status"] = "unknown"
                 o["reasons"].append(c.reason)
                 if len(o["models"]) < 2:
-                    o["models"].append({"model": c.model, "detail": c.detail, "path": c.path})
+                    o["models"].append({"model": c.model, "detail": c.detail, "path": c.path, "overapprox": getattr(c, "overapprox", False)})
     return out
